@@ -119,11 +119,21 @@ func vfC06Case(rt *rapid.T, c *ev.Collector) {
 		if err != nil {
 			rt.Fatalf("VIOL[c06-parseargs]: %v", err)
 		}
+		// steer the padding length the real client draws to its extremes now and then
+		// (values just beyond the legal maximum wrap around to small paddings in a correct implementation)
+		steer := rapid.SampledFrom([]int{-1, -1, -1, -1, 0, 0, refobfs4.ClientMaxPad - refobfs4.ClientMinPad, refobfs4.ClientMaxPad - refobfs4.ClientMinPad, refobfs4.ClientMaxPad - refobfs4.ClientMinPad + 1, refobfs4.ClientMaxPad - refobfs4.ClientMinPad + 2}).Draw(rt, "steerRealClientPad")
+		if steer >= 0 {
+			detrand.ForceIntn(steer)
+		}
 		cl := drive.Start(n, wire.A, func() (net.Conn, error) { return cf.Dial("tcp", "192.0.2.1:1", vfDialFn(n.Conn(wire.A)), cargs) })
 		if err := n.WaitQuiescent(wire.A); err != nil {
 			rt.Fatalf("VIOL[c06-wedge]: %v", err)
 		}
+		detrand.ClearForced()
 		hs := n.Take(wire.A)
+		if steer >= 0 && (len(hs) == refobfs4.ClientMinHS+refobfs4.ClientMinPad || len(hs) == refobfs4.MaxHandshake) {
+			cls = append(cls, "real-side-padding-steered-to-extreme")
+		}
 		if w, _, _ := n.Snapshot(); len(w) != 1 {
 			cls = append(cls, "client-handshake-in-several-writes") // not demanded by the property
 		}
@@ -251,7 +261,15 @@ func vfC06Case(rt *rapid.T, c *ev.Collector) {
 		if err != nil {
 			rt.Fatalf("VIOL[c06-serverfactory]: %v", err)
 		}
+		steer := rapid.SampledFrom([]int{-1, -1, -1, -1, 0, 0, refobfs4.ServerMaxPad, refobfs4.ServerMaxPad, refobfs4.ServerMaxPad + 1, refobfs4.ServerMaxPad + 2}).Draw(rt, "steerRealServerPad")
+		if steer >= 0 {
+			detrand.ForceIntn(steer)
+		}
 		sv := drive.Start(n, wire.B, func() (net.Conn, error) { return sf.WrapConn(n.Conn(wire.B)) })
+		if err := n.WaitQuiescent(wire.B); err != nil {
+			rt.Fatalf("VIOL[c06-wedge]: %v", err)
+		}
+		detrand.ClearForced()
 		var cpad int
 		outOfRange := false
 		switch k := rapid.IntRange(0, 9).Draw(rt, "clientPadClass"); {
@@ -301,6 +319,9 @@ func vfC06Case(rt *rapid.T, c *ev.Collector) {
 		sh, err := cl.ParseResponse(resp)
 		if err != nil {
 			rt.Fatalf("VIOL[c06-server-response]: reference client cannot accept the real server's response (%d bytes, client hour offset %d): %v", len(resp), hoff, err)
+		}
+		if steer >= 0 && (sh.PadLen == 0 || sh.PadLen == refobfs4.ServerMaxPad) {
+			cls = append(cls, "real-side-padding-steered-to-extreme")
 		}
 		if sh.PadLen < refobfs4.ServerMinPad || sh.PadLen > refobfs4.ServerMaxPad {
 			rt.Fatalf("VIOL[c06-server-pad]: server padding %d outside 0..%d", sh.PadLen, refobfs4.ServerMaxPad)
@@ -401,11 +422,12 @@ func vfC06Case(rt *rapid.T, c *ev.Collector) {
 func TestVerifC06Interop(t *testing.T) {
 	vfSetup(t)
 	c := ev.For("C06")
-	c.Rule("interop: generated bridge identity/seed/IAT mode/bridge-line form; either the real client talks to the reference server or the reference client to the real server, with reference-side padding lengths incl. the extremes (client 77/8128, server 0/8051) and just outside, hour offsets -1..1, generated frame sequences (payload, padding-only, payload+padding, unknown types, mid-stream seed packets) delivered in generated segments, and generated real-side writes; oracle: both handshakes complete for in-range values and not for out-of-range ones, data flows intact both ways, and the reference side (holding the keys) re-derives every byte-level fact of what the real side emitted; non-trivial = >= 2 payload frames in each direction; fingerprint = arrangement, paddings, frame list, randomness key")
+	c.Rule("interop: generated bridge identity/seed/IAT mode/bridge-line form; either the real client talks to the reference server or the reference client to the real server, with reference-side padding lengths incl. the extremes (client 77/8128, server 0/8051) and just outside, hour offsets -1..1, the real side's own random padding length steered to its minimum / maximum in 40 % of the cases (through the randomness override), generated frame sequences (payload, padding-only, payload+padding, unknown types, mid-stream seed packets) delivered in generated segments, and generated real-side writes; oracle: both handshakes complete for in-range values and not for out-of-range ones, data flows intact both ways, and the reference side (holding the keys) re-derives every byte-level fact of what the real side emitted; non-trivial = >= 2 payload frames in each direction; fingerprint = arrangement, paddings, frame list, randomness key")
 	c.Assume("'deployed format' is what the property states; the reference shares only primitives (SHA-256, HMAC, secretbox, X25519 scalar multiplication) with the code under test and is anchored by SipHash / RFC 7748 / RFC 5869 vectors at start-up")
 	c.Floor("real-client/ref-server", 0.3)
 	c.Floor("ref-client/real-server", 0.3)
 	c.Floor("extreme-padding", 0.1)
+	c.Floor("real-side-padding-steered-to-extreme", 0.15)
 	rapid.Check(t, func(rt *rapid.T) { vfC06Case(rt, c) })
 }
 
